@@ -215,6 +215,19 @@ def closed_forms(env, model, **cfg):
     else:
         rt3 = np.sqrt(3) * tau
     env.eq("C15", "transverse shear (wingbox, cubic deflection): spar combinations == sqrt(3) E |third derivative| Q / (2 t)", vm[:, 2:], cols(rt3, rt3 / tssf))
+    # torsion and transverse shear together: the two shear flows add in one spar web and subtract in the other.  Stated
+    # through the symmetric functions of the two web stresses, so that which web is called front does not enter:
+    # s_a^2 + s_b^2 == 6 (tau^2 + q^2),  s_a^2 s_b^2 == 9 (tau^2 - q^2)^2
+    th = env.var("dtheta", ())
+    i = dict(base)
+    i["disp"] = cols(zero, zero, -kap * sj ** 3, -3 * kap * sj * sj, th * sj, zero)     # twist about the spar axis (+y)
+    vm = h.compute(i)["vonmises"]
+    tq = G * base["J"] * th / (2 * base["spar_thickness"] * base["A_enc"])
+    q = E * 6 * kap * base["Qz"] / (2 * base["spar_thickness"])
+    a2, b2 = vm[:, 2] * vm[:, 2], (vm[:, 3] * tssf) * (vm[:, 3] * tssf)
+    env.eq("C15", "torsion + transverse shear (wingbox): sum of the squared web stresses == 6 (tau^2 + q^2)", a2 + b2, 6 * (tq * tq + q * q))
+    env.eq("C15", "torsion + transverse shear (wingbox): product of the squared web stresses == 9 (tau^2 - q^2)^2 (flows add in one web, subtract in the other)",
+           a2 * b2, 9 * (tq * tq - q * q) * (tq * tq - q * q))
 
 
 @job("c15.SectionTube_Failure", ("C15",), cfgs=product([dict(nx=2, ny=3)], [dict(symmetry=True, side="left")], [dict(model="tube"), dict(model="wingbox")]),
